@@ -33,7 +33,10 @@ func (e *bndEngine) callModel(p *prover, x *ssa.Call, cal *ssa.Function, k strin
 				p.used["lemma L9: every Percentile.Str is built as <prefix ending in '_'> + number (witnessed by C08.R1 name:* obligations and the single Percentiles.Set caller)"] = true
 			}
 		}
-	case false:
+	case strings.HasPrefix(name, "slices.IndexFunc") || strings.HasPrefix(name, "slices.Index["):
+		p.add(constraint{linVar(k).add(linConst(1)), "index functions return >= -1"})
+		p.add(constraint{p.lenOf(x.Call.Args[0]).sub(linVar(k)).add(linConst(-1)), "index functions return < len"})
+		p.used["model: slices.Index / slices.IndexFunc return -1 <= r < len(s)"] = true
 	case strings.HasSuffix(name, ".Len") && (strings.Contains(name, "strings.Builder") || strings.Contains(name, "bytes.Buffer")):
 		p.add(constraint{linVar(k), "Len() >= 0"})
 	case FuncName(cal) == "pkg/statsd.min":
